@@ -398,6 +398,23 @@ theorem request_scope_only_when_allowed (p : Option Policy) (client : Option Add
   · exact ha
   · simp [ha] at h
 
+/-- **Lookup and insert key on exactly what was forwarded (IPv4).** The client
+scope the cache derives from the request edns handed it is the forwarded
+prefix itself — same network, same length — so the scope a client is looked up
+and filed under is never more specific than (nor different from) what left
+sdns.  (`f.val < 2^32`: the option's four address bytes are bytes.) -/
+theorem cache_scope_is_forwarded_prefix_v4 (pol : Policy) (client : Option Addr) (s : Subnet) (f : Fwd)
+    (hc : clamp (some pol) s = some f) (hf : f.fam = .v4) (hv : f.val < 2 ^ 32)
+    (ha : allows (some pol) client = true) :
+    requestScope (some pol) client (some [Opt.ecs f.toSubnet]) = some ⟨.v4, f.val, f.mask⟩ := by
+  obtain ⟨_, _, hm, _, hz, _⟩ := clamp_le_ceiling_and_zeroes_host_bits pol s f hc
+  rw [hf] at hm hz
+  simp only [Fam.width] at hm hz
+  have hl := natBytes_length 4 f.val
+  have hb := bytesVal_natBytes 4 f.val (by simpa using hv)
+  simp only [requestScope, ha, firstEcs, Fwd.toSubnet, hf, Fam.width]
+  simp [ipToAddr, hl, hb, Addr.prefix?, Fam.width, hm, maskTo_of_aligned 32 f.mask f.val hz]
+
 /-- **Scoped answers are capped by the scoped TTL limit** (when one is
 configured) and are never lengthened — positive answers, NODATA, NXDOMAIN and
 referral-shaped replies alike. -/
@@ -747,6 +764,8 @@ example : setEdns0 (some demoPol) (some ⟨.v4, 0x0a010203⟩)
 example : setEdns0 (some demoPol) (some ⟨.v4, 0x0b010203⟩)
     [.other 10 "0011223344556677", .ecs ⟨1, 27, 0, some [10, 1, 0xff, 0xff]⟩] = [] := by decide
 example : clamp (some demoPol) ⟨1, 27, 0, some [10, 1, 0xff, 0xff]⟩ = some ⟨.v4, 19, 0x0a01e000⟩ := by decide
+example : requestScope (some demoPol) (some ⟨.v4, 0x0a010203⟩) (some [.ecs (Fwd.mk .v4 19 0x0a01e000).toSubnet]) =
+    some ⟨.v4, 0x0a01e000, 19⟩ := by decide
 -- a client reply never keeps the forwarded copy nor the upstream's own
 example : replyOptions false (some [.ecs ⟨1, 19, 19, some [10, 1, 0xe0, 0]⟩, .other 11 "up"])
     [.ecs ⟨1, 19, 0, some [10, 1, 0xe0, 0]⟩] [.other 10 "srv"] true = some [.other 10 "srv", .other 11 "srv"] := by decide
